@@ -824,7 +824,7 @@ class Quaternion(SMUserList):
             -0.379049 << -0.454859, -0.530669, -0.606478 >>
         """
 
-        return UnitQuaternion([-x for x in self.data])  # pylint: disable=invalid-unary-operand-type
+        return self.__class__([-x for x in self.data])  # pylint: disable=invalid-unary-operand-type
 
     def __repr__(self):
         """
